@@ -105,13 +105,15 @@ class C18(vlib.Driver):
             if tier == "quick" and N > 21 and cfg not in ((51, 0.0, 13.1), (51, 0.0, 200.0), (51, -100.0, -99.7)):
                 continue
             for cls in ["on_atom", "above", "below", "at_vmax", "at_vmin", "inside"]:
+                if tier == "quick" and N > 21 and cls in ("inside", "below"):
+                    continue
                 B = 2 if N <= 21 else 1
                 cases.append(self.one_case(rng, cfg, B=B, classes=["inside", cls] if B == 2 else [cls],
                                            mode=rng.choice(["one", "nstep", "combined"])))
         # gamma = 1 on dyadic supports: every atom of a not-done row lands exactly on an atom
         for cfg in DYADIC[:6]:
             cases.append(self.one_case(rng, cfg, gamma=1.0, classes=["on_atom_shift"], mode="combined"))
-        nseed = 90 if tier == "quick" else 1500
+        nseed = 70 if tier == "quick" else 600
         for i in range(nseed):
             cfg = rng.choice(DYADIC + NONDYADIC)
             if tier == "quick" and cfg[0] > 21 and rng.random() < 0.6:
@@ -182,7 +184,11 @@ class C18(vlib.Driver):
                 qv = ag.actor(b["next_obs"])
                 target = ag.actor_target(b["next_obs"], q=False)
                 logp = ag.actor(b["obs"], q=False, log=True)
+                logp_next = ag.actor(b["next_obs"], q=False, log=True)
             rec = {"online": online.tolist(), "q": qv.tolist(), "target": target.tolist(), "logp": logp.tolist(), "proj": None}
+            # the three read-outs of the distributional head on the same input must describe one distribution
+            rec["head_dev"] = float((logp_next.double().exp().clamp(min=1e-3) - online.double()).abs().max())
+            rec["head_lognorm"] = float(logp.double().exp().sum(-1).sub(1.0).abs().max())
             try:
                 rec["proj"] = self.read_projection(ag, b, gam[part], N, A).tolist()
             except Exception as e:  # noqa: BLE001 — the property says "no exception"
@@ -244,6 +250,10 @@ class C18(vlib.Driver):
         tag = f"N={N},range=({case['vmin']},{case['vmax']})"
         for k, e in obs["errors"].items():
             out.append(Violation("no-exception", f"exception:{k}:{e.split(':')[0]}", f"{k} raised {e} [{tag}]"))
+        if abs(obs["delta_z"] - rng_ / (N - 1)) > 1e-9 * max(1.0, abs(rng_)) or len(obs["support"]) != N or \
+                max(abs(a - b) for a, b in zip(obs["support"], z)) > 1e-5 * max(1.0, absmax):
+            out.append(Violation("support", "support", f"agent.support / delta_z are not the {N}-point grid on [{vmin},{vmax}]: "
+                                 f"delta_z={obs['delta_z']!r} support={obs['support']} [{tag}]"))
         gam = {"1": case["gamma"], "n": case["gamma"] ** case["nstep"]}
         ces = {}
         for part, rows in (("1", case["rows1"]), ("n", case["rowsn"])):
@@ -252,6 +262,14 @@ class C18(vlib.Driver):
                 continue
             proj = np.asarray(rec["proj"], dtype=np.float64)
             g = gam[part]
+            qerr = np.abs(np.asarray(rec["q"], dtype=np.float64) - np.asarray(rec["online"], dtype=np.float64) @ z).max()
+            if qerr > 1e-4 * (1.0 + absmax):
+                out.append(Violation("head", f"head-q:{part}", f"actor(next_obs) is not the expectation sum_i p_i z_i of actor(next_obs, q=False): "
+                                     f"max deviation {qerr!r} [{tag}]"))
+            if rec.get("head_dev", 0.0) > 1e-5 or rec.get("head_lognorm", 0.0) > 1e-4:
+                out.append(Violation("head", f"head:{part}", f"actor(x, q=False) is not clamp(exp(actor(x, q=False, log=True)), 1e-3) "
+                                     f"(max deviation {rec.get('head_dev')!r}) or the log-distribution is not normalised "
+                                     f"(|sum exp - 1| = {rec.get('head_lognorm')!r}) [{tag}]"))
             ce_rows = []
             for k, row in enumerate(rows):
                 qv = np.asarray(rec["q"][k], dtype=np.float64)
@@ -269,7 +287,7 @@ class C18(vlib.Driver):
                     tzv = np.clip(row["r"] + (1 - row["d"]) * g * z, vmin, vmax)
                     m_err = abs(pk.sum() - p.sum())
                     e_err = abs(float(pk @ z) - float(p @ tzv))
-                    if m_err <= 1e-5 * max(1.0, p.sum()):
+                    if m_err <= 5e-5 * max(1.0, p.sum()):
                         ok_mass = True
                     if e_err <= 1e-5 * (mag + rng_) * p.sum():
                         ok_mean = True
